@@ -382,7 +382,7 @@ func legC02Filter(c *Ctx) {
 	phase("compile+kinds")
 	// ---- 202: exhaustive filter tables ----
 	bigDone, shapeDone, genDone, tabulated := map[int64]int{}, map[int64]int{}, map[int64]int{}, map[string]bool{}
-	capShape, capGen := 13, 9
+	capShape, capGen := c.N(13, 25), c.N(9, 25)
 	evals, nontrivial, mismatches := 0, 0, 0
 	type chunk struct {
 		cp    *c02Pat
@@ -452,12 +452,10 @@ func legC02Filter(c *Ctx) {
 			continue
 		}
 		// quick: the first pattern of each kind gets all strings of <= 5 symbols, then up to capShape shapes and
-		// capGen generated patterns per kind get all strings of <= 4 symbols
-		maxLen, budget := 4, 6
-		if c.Thorough {
-			maxLen, budget = 5, 7
-		} else if bigDone[cp.kind] == 0 {
-			maxLen = 5
+		// capGen generated patterns per kind get all strings of <= 4 symbols (thorough: 6 and 5 symbols, larger caps)
+		maxLen, budget := c.N(4, 5), 6
+		if bigDone[cp.kind] == 0 {
+			maxLen++
 			bigDone[cp.kind]++
 		} else if cp.p.ast == nil {
 			if shapeDone[cp.kind] >= capShape {
